@@ -605,11 +605,15 @@ def run(ctx, quick):
     if r["json"] is None:
         ctx.corr_break("container driver", "all cases", (r["err"] or r["out"])[-1500:], "results for every case")
         return
+    nrep = {}
     for (fn, args, stratum), (same, r1, r2) in zip(main, r["json"]):
         inp = {"module": "c14_cont", "func": fn, "args": args}
         ctx.case("container/" + stratum, inp, sig=(fn, json.dumps(args, sort_keys=True)))
         if not same:
-            ctx.fail(classify(fn, args, r1, r2), inp, r1, r2, note="compiled vs the same body run by CPython")
+            kl = classify(fn, args, r1, r2)
+            nrep[kl] = nrep.get(kl, 0) + 1
+            if nrep[kl] <= (300 if kl in getattr(ctx, "known_classes", {}) else 3):
+                ctx.fail(kl, inp, r1, r2, note="compiled vs the same body run by CPython")
     # iteration over a typed variable holding None: one subprocess per case (a crash is an observed outcome);
     # only the exception type is compared (the message text is not part of the property)
     for fn, args, stratum in cs:
